@@ -11,7 +11,7 @@ from contracts.compiler_c import pick
 from pyvc import driver
 from pyvc.engine import BUILTINS, Path
 
-COMPILE_OUTCOMES = ["clean", "warnings-only", "error-then-return", "error-then-recoverable", "critical", "internal-crash"]
+COMPILE_OUTCOMES = ["clean", "warnings-only", "error-then-return", "error-then-warning", "error-then-recoverable", "critical", "internal-crash"]
 
 
 def install_cli_world(eng, outfile_kind, lst, implicit_bin, emitted, report_format="bare"):
@@ -86,6 +86,10 @@ def install_cli_world(eng, outfile_kind, lst, implicit_bin, emitted, report_form
         elif k == "error-then-return":
             report(e, "warning", "implicit-operand")
             report(e, "error", "value-out-of-bounds")
+        elif k == "error-then-warning":
+            report(e, "error", "duplicate-symbol")
+            report(e, "warning", "implicit-operand")
+            report(e, "warning", "meta-typo")
         elif k == "error-then-recoverable":
             report(e, "error", "wrong-meta-operands")
             raise PyRaise(Exc("RecoverableError"))
